@@ -1599,7 +1599,11 @@ func clusterRun(r *simkit.Run) {
 
 		st := "-"
 		if nd.alive {
-			st = string(clCurrent(nd.sts))
+			// the root goroutine must not wait for a lock a parked task holds: the state is "?" then
+			sts := nd.sts
+			st = "?"
+
+			r.Try(func() { st = string(clCurrent(sts)) })
 		}
 
 		hs = append(hs, fmt.Sprintf("node%d:h%d:%s", nd.i, h, st))
